@@ -346,6 +346,56 @@ func sigString(sig *types.Signature, q types.Qualifier) string {
 //	downward, compares `.name` with the string parameter, and has -1 as its
 //	not-found result.
 func (c *Ctx) structuralAliases() []string {
+	notes := c.aliasParseWithOpts()
+	return append(notes, c.aliasResolveLocal()...)
+}
+
+// aliasParseWithOpts: the function between the API and the compiler — it is handed the chunk channel, calls
+// parse(…) and returns (*Prog, error) — under whatever name and receiver.
+func (c *Ctx) aliasParseWithOpts() []string {
+	if _, done := aliasByName("parseWithOpts"); done {
+		return nil
+	}
+	for obj, fd := range c.funcDecls {
+		f, ok := obj.(*types.Func)
+		if ok && fd.Body != nil && f.Pkg() != nil && f.Pkg().Path() == bclPath && rawQName(f) == "parseWithOpts" {
+			return nil
+		}
+	}
+	var cands []types.Object
+	for _, it := range c.sortedDecls() {
+		f, ok := it.obj.(*types.Func)
+		if !ok || it.fd.Body == nil || f.Pkg() == nil || f.Pkg().Path() != bclPath {
+			continue
+		}
+		sig := f.Type().(*types.Signature)
+		if sig.Results().Len() != 2 || !isNamed(derefType(sig.Results().At(0).Type()), bclPath, "Prog") || !isErrorType(sig.Results().At(1).Type()) {
+			continue
+		}
+		hasChan := false
+		for i := 0; i < sig.Params().Len(); i++ {
+			if ch, isCh := sig.Params().At(i).Type().Underlying().(*types.Chan); isCh && types.TypeString(ch.Elem(), nil) == "string" {
+				hasChan = true
+			}
+		}
+		callsParse := false
+		walkCalls(it.fd.Body, false, func(call *ast.CallExpr) {
+			if cf, isF := c.callee(call).(*types.Func); isF && cf.Pkg() != nil && cf.Pkg().Path() == bclPath && rawQName(cf) == "parse" {
+				callsParse = true
+			}
+		})
+		if hasChan && callsParse {
+			cands = append(cands, it.obj)
+		}
+	}
+	if len(cands) == 1 {
+		aliasOf[cands[0]] = "parseWithOpts"
+		return []string{fmt.Sprintf("%s is taken to be parseWithOpts (by what it does: handed the chunk channel, calls parse, returns the program and the error)", rawQName(cands[0].(*types.Func)))}
+	}
+	return nil
+}
+
+func (c *Ctx) aliasResolveLocal() []string {
 	var notes []string
 	if _, done := aliasByName("parser.resolveLocal"); done {
 		return nil
